@@ -7,6 +7,7 @@ import (
 	"strings"
 
 	"verif/engine"
+	"verif/harness/c18"
 	"verif/gen"
 
 	"github.com/sdcio/yang-parser/compile"
@@ -17,7 +18,7 @@ func init() {
 		Prop:   "C20",
 		Run:    run,
 		Replay: replay,
-		Rule: "E1 over module sets x all filter combinations with a differential oracle: a generator places config true/false/absent at every position of tree skeletons (containers, lists, leaves, leaf-lists, choices with cases and default cases under containers, lists, nested lists, cases and at the module top, up to 3 levels), plus fixed sets with opd:command/option/argument nodes, lists whose key is the only configuration node, choices whose default case is state-only, groupings/augments/rpcs; each set is compiled without a filter and with each of 21 filters (nil, IsConfig, IsState, IsOpd, IsConfigOrState, Include and Exclude of every subset of the three predicates, IncludeState true/false). " +
+		Rule: "E1 over module sets x all filter combinations with a differential oracle: (1) every schema forest of the C18 generator with <= 2 (thorough: <= 3) nodes with config false on no node, each single node (thorough: each pair of nodes); (2) a generator places config true/false/absent at every position of tree skeletons (containers, lists, leaves, leaf-lists, choices with cases and default cases under containers, lists, nested lists, cases and at the module top, up to 3 levels), plus fixed sets with opd:command/option/argument nodes, lists whose key is the only configuration node, choices whose default case is state-only, groupings/augments/rpcs; each set is compiled without a filter and with each of 21 filters (nil, IsConfig, IsState, IsOpd, IsConfigOrState, Include and Exclude of every subset of the three predicates, IncludeState true/false). " +
 			"The dump of the filtered compile must equal the dump of the unfiltered compile after removing every node that fails the filter together with its subtree (the predicates are re-implemented on the dump's own kind/config fields); a filter must never turn a compilable set into an error. Non-trivial = the filter removes at least one node but not all.",
 		Bound: map[string]string{
 			"quick":    "10 skeletons with 4 config positions x 3 values + 16 fixed sets, x 21 filters",
@@ -277,6 +278,44 @@ func fixedSets() map[string]map[string]string {
 	}
 }
 
+// runGenerated: every schema forest of the C18 generator, with "config false" placed on no node, on
+// each single node, and (thorough) on each pair of nodes, x every filter.
+func runGenerated(c *engine.Ctx, doSet func(name string, mods map[string]string)) {
+	sb := 2
+	if !c.Quick() {
+		sb = 3
+	}
+	all := c18.GenSchemas(sb)
+	n := 0
+	for gi, g := range all {
+		if c.Expired() {
+			return
+		}
+		nodes := len(c18.Nodes(g))
+		var placements [][]int
+		placements = append(placements, nil)
+		for i := 0; i < nodes; i++ {
+			placements = append(placements, []int{i})
+			if !c.Quick() {
+				for j := i + 1; j < nodes; j++ {
+					placements = append(placements, []int{i, j})
+				}
+			}
+		}
+		for _, pl := range placements {
+			k := c18.Clone(g)
+			ns := c18.Nodes(k)
+			for _, i := range pl {
+				ns[i].Config = "false"
+			}
+			text := "module a { namespace \"urn:a\"; prefix a; " + c18.SchemaText(k) + " }"
+			doSet(fmt.Sprintf("gen%d:%v:%s", gi, pl, c18.SchemaText(k)), map[string]string{"a": text})
+			n++
+		}
+	}
+	c.Note(fmt.Sprintf("generated schemas of <= %d nodes with config false on 0, 1%s nodes: %d module sets", sb, map[bool]string{true: "", false: ", 2"}[c.Quick()], n))
+}
+
 func run(c *engine.Ctx) {
 	fs := filters()
 	c.Note(fmt.Sprintf("%d filters", len(fs)))
@@ -313,6 +352,7 @@ func run(c *engine.Ctx) {
 	for name, mods := range fixedSets() {
 		doSet("fixed:"+name, mods)
 	}
+	runGenerated(c, doSet)
 	vals := []string{"", "true", "false"}
 	for si, sk := range skeletons() {
 		cfg := make([]string, sk.n)
